@@ -298,6 +298,8 @@ def update(
     for k, v in new.items():
         k, v = check_key_val(k, v)
         k = canonical_name(k, old)
+        # the defaults may hold the key under its other '-'/'_' spelling
+        dk = canonical_name(k, defaults) if defaults else k
 
         if isinstance(v, Mapping):
             if k not in old or old[k] is None or not isinstance(old[k], dict):
@@ -306,7 +308,7 @@ def update(
                 old[k],
                 v,
                 priority=priority,
-                defaults=defaults.get(k) if defaults else None,
+                defaults=defaults.get(dk) if defaults else None,
             )
         else:
             if (
@@ -315,8 +317,8 @@ def update(
                 or (
                     priority == "new-defaults"
                     and defaults
-                    and k in defaults
-                    and defaults[k] == old[k]
+                    and dk in defaults
+                    and defaults[dk] == old[k]
                 )
             ):
                 old[k] = v
